@@ -217,6 +217,9 @@ var constSpecs = []constSpec{
 	{"internal/grouper", "", []string{"growthFactor", "maxLoadFactor"}},
 	{"internal/grouper", "calculateInitialSizeExp", []string{"grouper_fit_div", "grouper_min_exp"}},
 	{"internal/sort", "quickSort", []string{"qs_insertion_max", "qs_depth_zero", "qs_one", "qs_gap_a", "qs_gap_b", "qs_gap_c"}},
+	{"internal/sort", "insertionSort", []string{"is_one", "is_prev_a", "is_prev_b"}},
+	{"internal/sort", "siftDown", []string{"sd_two", "sd_one_a", "sd_one_b", "sd_one_c"}},
+	{"internal/sort", "heapSort", []string{"hs_lo", "hs_one_a", "hs_two", "hs_zero_a", "hs_one_b", "hs_zero_b"}},
 	{"internal/sort", "maxDepth", []string{"md_zero", "md_shift", "md_mul"}},
 	{"internal/sort", "doPivot", []string{"dp_m_shift", "dp_ninther_min", "dp_ninther_div", "dp_two_a", "dp_one_a", "dp_one_b", "dp_one_c", "dp_two_b", "dp_one_d", "dp_one_e", "dp_one_f", "dp_one_g", "dp_one_h", "dp_protect", "dp_quarter", "dp_dups0", "dp_one_i", "dp_one_j", "dp_one_k", "dp_one_l", "dp_dups_min", "dp_one_m", "dp_one_n", "dp_one_o", "dp_one_p"}},
 	{"internal/fastcsv", "bufferedReader.more", []string{"csv_grow_mul", "csv_grow_add"}},
